@@ -11,7 +11,7 @@ A *case* is plain JSON:
 
   node  = ["text", s] | ["var", x] | ["elem", tag, [node]] | ["if", ["var"|"not", x], [node]]
         | ["for", x, xs, [node]] | ["def", m, [node]] | ["call", m] | ["match", tag, [node]]
-        | ["include", href, parse, fallback]
+        | ["include", href, parse, fallback] | ["select"]   (${select('*|text()')}, in match template bodies)
   href  = ["static", s] | ["dyn", [["lit", s] | ["var", x], ...]]
   parse = "xml" | "text" | null          (null: the includer's own class)
   fallback = null | [node]
@@ -62,6 +62,8 @@ def markup_nodes(nodes, root_ns=False):
             out.append('${%s}' % n[1])
         elif k == 'call':
             out.append('${%s()}' % n[1])
+        elif k == 'select':
+            out.append("${select('*|text()')}")
         elif k == 'elem':
             ns = ' xmlns:py="%s" xmlns:xi="%s"' % (PY_NS, XI_NS) if root_ns else ''
             out.append('<%s%s>%s</%s>' % (n[1], ns, markup_nodes(n[2]), n[1]))
@@ -131,7 +133,7 @@ def text_ok(nodes):
     """what a text template can express (and what the model covers for text files)"""
     for n in nodes:
         k = n[0]
-        if k in ('elem', 'match', 'call'):
+        if k in ('elem', 'match', 'call', 'select'):
             return False
         if k in ('if', 'def') and not text_ok(n[2]):
             return False
@@ -526,6 +528,9 @@ def _nodes_ok(nodes, kind, in_def, names):
         if k == 'text':
             if len(n) != 2 or not isinstance(n[1], str) or not set(n[1]) <= _TEXT_OK:
                 return False
+        elif k == 'select':
+            if len(n) != 1 or kind != 'markup':
+                return False
         elif k in ('var', 'call'):
             if len(n) != 2 or not isinstance(n[1], str) or not _IDENT.match(n[1]):
                 return False
@@ -654,7 +659,7 @@ def valid_case(case):
 def _text_printable(nodes):
     for n in nodes:
         k = n[0]
-        if k in ('elem', 'match'):
+        if k in ('elem', 'match', 'select'):
             return False
         if k in ('if', 'def') and not _text_printable(n[2]):
             return False
@@ -674,6 +679,22 @@ def _text_printable(nodes):
 # content is used exactly when the target is missing; a missing target without fallback is
 # the not-found error; macros and match templates registered by included content stay
 # registered for the includer from that point on.
+
+def events_to_nodes(evs):
+    """a canonical event list read back as a forest of elements and text"""
+    stack, cur = [], []
+    for e in evs:
+        if e[0] == 'T':
+            cur.append(['text', e[1]])
+        elif e[0] == 'S':
+            stack.append(cur)
+            cur = []
+        elif e[0] == 'E':
+            el = ['elem', e[1], cur]
+            cur = stack.pop() if stack else []
+            cur.append(el)
+    return cur
+
 
 class SpecError(Exception):
     pass
@@ -708,6 +729,7 @@ class Spec(object):
         self.data = dict(case['data'])
         self.macros = {}
         self.matches = []                 # [tag, body]
+        self.sel = []                     # contents of the matched elements being rewritten, innermost first
         self.out = []
         self.stats = {}
         self.active = [case['entry']]
@@ -766,6 +788,13 @@ class Spec(object):
                 self.render(body, where, depth + 1, lo, hi)
             elif k == 'match':
                 self.matches.append((n[1], n[2], here))
+            elif k == 'select':
+                if not self.sel:
+                    raise SpecError('UndefinedError')
+                self.stat('select')
+                # the selected events become part of the body: the match templates still open
+                # at this point apply to them
+                self.render(events_to_nodes(self.sel[0]), here, depth + 1, lo, hi)
             elif k == 'elem':
                 idx = None
                 for i, (tag, body, where) in enumerate(self.matches):
@@ -785,10 +814,16 @@ class Spec(object):
                         # the matched element is consumed (its content is evaluated, the match
                         # templates up to this one may still rewrite it) …
                         self.render(n[2], here, depth, lo, idx + 1)
+                        content = self.out
                     finally:
                         self.out = saved
-                    # … and replaced by the template body, open to the later match templates
-                    self.render(body, where, depth + 1, idx + 1, None)
+                    # … and replaced by the template body, open to the later match templates;
+                    # select() hands the content to the body
+                    self.sel.insert(0, content)
+                    try:
+                        self.render(body, where, depth + 1, idx + 1, None)
+                    finally:
+                        self.sel.pop(0)
             elif k == 'include':
                 href, parse, fb = n[1], n[2], n[3]
                 if href[0] == 'static':
@@ -895,6 +930,7 @@ class Gen(object):
         self.p_missing = p_missing
         self.in_def = 0
         self.guarded = 0
+        self.in_match = 0
 
     def case(self):
         rng = self.rng
@@ -911,7 +947,7 @@ class Gen(object):
         # diverge, the second cannot be observed by a test run
         k = rng.randrange(1, len(names) + 1)
         self.lower = set(names[k:])
-        self.use_match = rng.random() < (0.9 if self.zone else 0.45)
+        self.use_match = rng.random() < (0.9 if self.zone else 0.6)
         self.macros = ['m0', 'm1'] if rng.random() < 0.5 else []
         self.data = {
             's0': rng.choice(['', 'v', 'w&']), 's1': rng.choice(['', 'z']),
@@ -977,13 +1013,17 @@ class Gen(object):
         if self.kind == 'markup' and self.use_match:
             for t in MATCH_TAGS:
                 if rng.random() < 0.4:
-                    pre.append(['match', t, self.nodes(2, ['s0', 's1'], ['l0'], True, False)])
+                    pre.append(['match', t, self.match_body(2, ['s0', 's1'], ['l0'], False)])
         if pre and rng.random() < 0.3:
             # sometimes the include that brings in another library comes first
             pre.insert(0, self.include(1, ['s0', 's1'], ['l0'], False, False))
         body = pre + self.nodes(3, ['s0', 's1'], ['l0'], False, False)
         if self.zone and self.kind == 'markup' and self.use_match and rng.random() < 0.6:
             body.insert(rng.randrange(0, len(body) + 1), ['elem', rng.choice(MATCH_TAGS), self.nodes(1, ['s0', 's1'], ['l0'], True, False)])
+        if self.kind == 'markup' and self.use_match:
+            # elements for the match templates registered so far (by this file or by what it included)
+            for _ in range(rng.choice([0, 1, 1, 2])):
+                body.append(['elem', rng.choice(MATCH_TAGS), self.content(2)])
         if self.kind == 'markup':
             return [['elem', rng.choice(PLAIN_TAGS), body]]
         return body
@@ -1029,6 +1069,36 @@ class Gen(object):
             parts = ([['lit', href[:cut]]] if cut else []) + [['var', h]]
             return ['include', ['dyn', parts], parse, fb]
         return ['include', ['static', href], parse, fb]
+
+    def content(self, depth):
+        """plain content of a matchable element: text, expressions, elements"""
+        rng = self.rng
+        out = []
+        for _ in range(rng.randrange(0, 4)):
+            r = rng.random()
+            if r < 0.45:
+                out.append(['text', rand_text(rng)])
+            elif r < 0.6:
+                out.append(['var', rng.choice(['s0', 's1'])])
+            elif depth > 0:
+                out.append(['elem', rng.choice(PLAIN_TAGS + MATCH_TAGS), self.content(depth - 1)])
+        return out
+
+    def match_body(self, depth, svars, lvars, in_fb):
+        rng = self.rng
+        self.in_match += 1
+        try:
+            body = self.nodes(depth, svars, lvars, True, in_fb)
+        finally:
+            self.in_match -= 1
+        r = rng.random()
+        if r < 0.5:
+            # the usual shape: the content wrapped or decorated
+            sel = ['select']
+            if rng.random() < 0.5:
+                sel = ['elem', rng.choice(PLAIN_TAGS + MATCH_TAGS), [['select']]]
+            body.insert(rng.randrange(0, len(body) + 1), sel)
+        return body
 
     def nodes(self, depth, svars, lvars, zone, in_fb):
         rng = self.rng
@@ -1095,7 +1165,7 @@ class Gen(object):
                 return ['call', rng.choice(self.macros)]
             return ['text', rand_text(rng)]
         if r < 0.96 and markup and self.use_match:
-            return ['match', rng.choice(MATCH_TAGS), self.nodes(depth - 1, svars, lvars, True, in_fb)]
+            return ['match', rng.choice(MATCH_TAGS), self.match_body(depth - 1, svars, lvars, in_fb)]
         return ['text', rand_text(rng)]
 
 
